@@ -95,10 +95,10 @@ def check(ctx, args):
             n_pairs += 1
             if v == "0":
                 n_valid += 1
-            if o == "ok_wildcard" and v != "0":
+            if o.startswith("ok_wildcard") and v != "0":
                 # the validator sees what the call-graph comparison cannot: the wildcard now binds
                 # another same-named value (recorded family)
-                ctx.fail(heads[i][2] + "_wildcard", "%s: compiles, but the Coq validator rejects the result (verdict %s): a wildcard binding now supplies a different parameter" % (describe(i), v),
+                ctx.fail((o.split() + [heads[i][2] + "_wildcard"])[1], "%s: compiles, but the Coq validator rejects the result (verdict %s): a wildcard binding now supplies a different parameter" % (describe(i), v),
                          replay(i, "validator verdict %s" % v))
             elif o.startswith("ok") and v != "0":
                 mism.append((i, "oracle accepts, validator verdict %s" % v))
